@@ -22,6 +22,7 @@ pub fn sys_cfg() -> SysCfg {
         arrays: true,
         expr_steps: 5,
         names_and_aliases: true,
+        mc_bias: true,
         ..SysCfg::default()
     }
 }
